@@ -539,6 +539,79 @@ func (fr *frame) storeSiteAsserts(x *ssa.Store, st *State, reach string) {
 }
 
 
+// mapUpdateAsserts: assert@store <field>[] #n (k K, v V) uses ... label: expr -- anchored at the n-th update `x.field[k] = v`
+// (or `global[k] = v`) in source order.
+func (fr *frame) mapUpdateAsserts(x *ssa.MapUpdate, st *State, reach string) {
+	if fr.depth != 0 || fr.contract == nil || fr.pure {
+		return
+	}
+	nameOf := func(m *ssa.MapUpdate) string {
+		switch v := m.Map.(type) {
+		case *ssa.UnOp:
+			if fa, ok := v.X.(*ssa.FieldAddr); ok {
+				if stt, ok := fa.X.Type().Underlying().(*types.Pointer).Elem().Underlying().(*types.Struct); ok {
+					return stt.Field(fa.Field).Name() + "[]"
+				}
+			}
+			if g, ok := v.X.(*ssa.Global); ok {
+				return g.Name() + "[]"
+			}
+		}
+		return ""
+	}
+	name := nameOf(x)
+	if name == "" {
+		return
+	}
+	for _, cl := range fr.contract.Asserts {
+		if !cl.AtStore || cl.AtReturn || cl.Callee != name || cl.Fn == nil {
+			continue
+		}
+		if cl.Ordinal > 0 {
+			var sites []*ssa.MapUpdate
+			for _, b := range fr.fn.Blocks {
+				for _, in := range b.Instrs {
+					if m, ok := in.(*ssa.MapUpdate); ok && nameOf(m) == name {
+						sites = append(sites, m)
+					}
+				}
+			}
+			sort.Slice(sites, func(i, j int) bool { return sites[i].Pos() < sites[j].Pos() })
+			if cl.Ordinal > len(sites) || sites[cl.Ordinal-1] != x {
+				continue
+			}
+		}
+		sargs := append([]*Val{}, fr.params...)
+		need := len(cl.Fn.Params) - len(sargs) - len(cl.VarNames)
+		switch need {
+		case 0:
+		case 1:
+			sargs = append(sargs, fr.valOf(x.Key))
+		case 2:
+			sargs = append(sargs, fr.valOf(x.Key), fr.valOf(x.Value))
+		default:
+			fr.u.eng.stale = append(fr.u.eng.stale, "assert@store "+cl.Label+": parameter mismatch")
+			continue
+		}
+		ok := true
+		for _, ln := range cl.VarLocal {
+			lv := fr.localNamed(ln, x, st)
+			if lv == nil {
+				fr.u.eng.stale = append(fr.u.eng.stale, "assert@store "+cl.Label+": local "+ln+" not found")
+				ok = false
+				break
+			}
+			sargs = append(sargs, lv)
+		}
+		if !ok {
+			continue
+		}
+		t := fr.evalSpec(cl, sargs, st, nil)
+		fr.u.oblige(fr.obName("assert", cl.Label), "assert", cl.Tags, reach, t, fr.pos(x.Pos()), cl.Text)
+		fr.u.assertsSeen[cl.Label] = true
+	}
+}
+
 // returnSiteAsserts: assert@return #n uses ... label: expr  -- anchored at the n-th return statement.
 func (fr *frame) returnSiteAsserts(x *ssa.Return, st *State, reach string) {
 	if fr.depth != 0 || fr.contract == nil || fr.pure {
